@@ -430,7 +430,8 @@ func (g *gen) genField(fieldType types.Type, thisField, thatField string) error 
 		} else if canCopy(typ.Elem()) {
 			p.P("copy(%s, %s)", thatField, thisField)
 		} else {
-			p.P("%s(%s, %s)", g.GetFuncName(typ), thatField, thisField)
+			// requested for the type of the field, a function for another named type with the same underlying type does not accept it.
+			p.P("%s(%s, %s)", g.GetFuncName(fieldType), thatField, thisField)
 		}
 		p.Out()
 		p.P("}") // nil
@@ -442,7 +443,7 @@ func (g *gen) genField(fieldType types.Type, thisField, thatField string) error 
 		if hasDeepCopyMethod(fieldType) {
 			p.P("%s.DeepCopy(%s)", wrap(thisField), thatField)
 		} else {
-			p.P("%s(%s, %s)", g.GetFuncName(typ), thatField, thisField)
+			p.P("%s(%s, %s)", g.GetFuncName(fieldType), thatField, thisField)
 		}
 		p.Out()
 		p.P("} else {")
